@@ -569,3 +569,46 @@ package diff
 //@ loop 1 invariant returnURLMethods != nil && vs_fresh(returnURLMethods) && vs_opsOK(returnURLMethods)
 //@ loop 2 invariant returnURLMethods != nil && vs_fresh(returnURLMethods) && vs_opsOK(returnURLMethods)
 //@ loop 2 invariant vs_all(func(m string) bool { return vs_has(opsMap, m) ==> opsMap[m] != nil })
+
+//@ func (*SpecAnalyser).analyseSpecMetadata
+//@ props C12 C13 C14
+//@ requires sd != nil && spec1 != nil && spec2 != nil && spec1.Info != nil && spec2.Info != nil
+//@ ensures @C12 spec1 == spec2 ==> len(sd.Diffs) == old(len(sd.Diffs))
+//@ loop 1 invariant sd != nil && (spec1 == spec2 ==> len(sd.Diffs) == old(len(sd.Diffs)) && len(added) == 0 && len(deleted) == 0)
+//@ loop 2 invariant sd != nil && (spec1 == spec2 ==> len(sd.Diffs) == old(len(sd.Diffs)) && len(deleted) == 0)
+//@ loop 3 invariant sd != nil && (spec1 == spec2 ==> len(sd.Diffs) == old(len(sd.Diffs)) && len(added) == 0 && len(deleted) == 0)
+//@ loop 4 invariant sd != nil && (spec1 == spec2 ==> len(sd.Diffs) == old(len(sd.Diffs)) && len(deleted) == 0)
+//@ loop 5 invariant sd != nil && (spec1 == spec2 ==> len(sd.Diffs) == old(len(sd.Diffs)) && len(added) == 0 && len(deleted) == 0)
+//@ loop 6 invariant sd != nil && (spec1 == spec2 ==> len(sd.Diffs) == old(len(sd.Diffs)) && len(deleted) == 0)
+//@ loop 1 step len(sd.Diffs) == old(len(sd.Diffs))+1 && sd.Diffs[len(sd.Diffs)-1].Code == AddedConsumesFormat && sd.Diffs[len(sd.Diffs)-1].DiffInfo == eachAdded
+//@ loop 2 step len(sd.Diffs) == old(len(sd.Diffs))+1 && sd.Diffs[len(sd.Diffs)-1].Code == DeletedConsumesFormat && sd.Diffs[len(sd.Diffs)-1].Compatibility == Breaking && sd.Diffs[len(sd.Diffs)-1].DiffInfo == eachDeleted
+//@ loop 3 step len(sd.Diffs) == old(len(sd.Diffs))+1 && sd.Diffs[len(sd.Diffs)-1].Code == AddedProducesFormat
+//@ loop 4 step len(sd.Diffs) == old(len(sd.Diffs))+1 && sd.Diffs[len(sd.Diffs)-1].Code == DeletedProducesFormat
+//@ loop 5 step len(sd.Diffs) == old(len(sd.Diffs))+1 && sd.Diffs[len(sd.Diffs)-1].Code == AddedSchemes
+//@ loop 6 step len(sd.Diffs) == old(len(sd.Diffs))+1 && sd.Diffs[len(sd.Diffs)-1].Code == DeletedSchemes
+
+// ---- extensions: an added / deleted mirror pair (C14), nothing for identical maps (C12) ----
+
+//@ func (*SpecAnalyser).checkAddedExtensions
+//@ props C12 C14
+//@ safety
+//@ modifies &sd.Diffs
+//@ requires sd != nil
+//@ ensures @C12 vs_eq(extensions1, extensions2) ==> len(sd.Diffs) == old(len(sd.Diffs))
+//@ loop 1 invariant sd != nil && (vs_eq(extensions1, extensions2) ==> len(sd.Diffs) == old(len(sd.Diffs)))
+//@ loop 1 step len(sd.Diffs) == old(len(sd.Diffs)) || (len(sd.Diffs) == old(len(sd.Diffs))+1 && sd.Diffs[len(sd.Diffs)-1].Code == AddedExtension && sd.Diffs[len(sd.Diffs)-1].DifferenceLocation.Response == diffLocation.Response)
+
+//@ func (*SpecAnalyser).checkDeletedExtensions
+//@ props C12 C14
+//@ safety
+//@ modifies &sd.Diffs
+//@ requires sd != nil
+//@ ensures @C12 vs_eq(extensions1, extensions2) ==> len(sd.Diffs) == old(len(sd.Diffs))
+//@ loop 1 invariant sd != nil && (vs_eq(extensions1, extensions2) ==> len(sd.Diffs) == old(len(sd.Diffs)))
+//@ loop 1 step len(sd.Diffs) == old(len(sd.Diffs)) || (len(sd.Diffs) == old(len(sd.Diffs))+1 && sd.Diffs[len(sd.Diffs)-1].Code == DeletedExtension && sd.Diffs[len(sd.Diffs)-1].DifferenceLocation.Response == diffLocation.Response)
+
+//@ func (*SpecAnalyser).analyseEndpointData
+//@ props C12 C14
+//@ requires sd != nil
+//@ loop 2 step len(sd.Diffs) == old(len(sd.Diffs))+1 && sd.Diffs[len(sd.Diffs)-1].Code == AddedTag
+//@ loop 3 step len(sd.Diffs) == old(len(sd.Diffs))+1 && sd.Diffs[len(sd.Diffs)-1].Code == DeletedTag
